@@ -155,11 +155,12 @@ func inferSessionInfo(p *Program) *sessionInfo {
 		}
 		all := true
 		for _, t := range d.terms {
-			if !strings.Contains(t, "."+si.from) {
+			// to = from + <size>: an integer sum over the from field (not a call that merely takes it)
+			if !strings.HasPrefix(t, "add(") || !strings.Contains(t, "."+si.from) || strings.Contains(t, "call:") {
 				all = false
 			}
 		}
-		if all {
+		if all && isIntField(st, name) && name != si.bm {
 			si.to = name
 		}
 		if !d.nonK && len(d.consts) == 2 && d.consts[4] && d.consts[8] {
